@@ -52,11 +52,11 @@ type HarnessSpec struct {
 }
 
 type PropertySpec struct {
-	ID        string
-	Harnesses []HarnessSpec
-	Outside   []string // what lies outside the claim
+	ID            string
+	Harnesses     []HarnessSpec
+	Outside       []string // what lies outside the claim
 	UsesEvalModel bool
-	Stubs     []string
+	Stubs         []string
 }
 
 type Job struct {
@@ -129,7 +129,9 @@ func runJob(job *Job) (res *JobResult) {
 	tmo := job.Spec.SolverTimeoutMs
 	if tmo == 0 {
 		tmo = 120_000
-		if v := os.Getenv("VERIF_TMO"); v != "" { fmt.Sscanf(v, "%d", &tmo) }
+		if v := os.Getenv("VERIF_TMO"); v != "" {
+			fmt.Sscanf(v, "%d", &tmo)
+		}
 		if job.Tier == "thorough" {
 			tmo = 600_000
 		}
